@@ -160,7 +160,8 @@ vk_mr_panics!(vk_modring_double_two_instances_panic, 5, {
 // mul_assign(&); `&a - b` has its own match): a symbolic form selector over the multi-word kernels is beyond CBMC
 macro_rules! vk_mr_large_panics {
     ($($name:ident = $k:expr),* $(,)?) => {$(
-        vk_mr_panics!($name, 5, {
+        vk_mr_panics!($name, 26, {      // 26: a value comparison of the rings (what a wrong identity check would do) is a
+            // memcmp over 3 words: it must be fully unwound so that such a change ends in must_not_return, not in an unwinding failure
             let (r1, r2) = (vk_mr_large(), vk_mr_large());
             let a = Reduced::from_large(vk_mr_large_elem(&r1, true), &r1);
             let b = Reduced::from_large(vk_mr_large_elem(&r2, true), &r2);
